@@ -396,7 +396,7 @@ def declare(reg):
             }},
             "harness": "harness.e2e:CopyExpansion",
         },
-        props=["C15"],
+        props=["C15", "C03", "C05"],
         note="verified up to the cut point (the message-set expansion); the copy itself is not under contract",
     )
     for pid in ("C15", "C05"):
